@@ -66,6 +66,18 @@ def _parse_model(*, model: Type[T], obj: Any) -> T:
         return result
 
 
+def _display(value: Any) -> str:
+    """The value as text for an error message.
+    Python does not print every value that a document can hold: an integer of more than 4300 digits
+    (YAML reads one from a hexadecimal literal) is a ValueError to print, and a list nested deeper
+    than the interpreter recurses is a RecursionError.
+    """
+    try:
+        return str(value)
+    except (ValueError, RecursionError):
+        return f"<a {type(value).__name__} that cannot be displayed>"
+
+
 def parse_model(*, model: Type[T], obj: Any) -> T:
     if isinstance(obj, dict) and not all(isinstance(key, str) for key in obj):
         raise DecodeValidationError(
@@ -74,8 +86,16 @@ def parse_model(*, model: Type[T], obj: Any) -> T:
     try:
         return _parse_model(model=model, obj=obj)
     except PydanticValidationError as exc:
-        errors: list[ErrorDict] = cast(list[ErrorDict], exc.errors())
-        raise DecodeValidationError(pydantic_validationerrors_to_str(model, errors))
+        try:
+            errors: list[ErrorDict] = cast(list[ErrorDict], exc.errors())
+            message = pydantic_validationerrors_to_str(model, errors)
+        except (ValueError, RecursionError):
+            # The description of an error quotes the offending value or its position; see _display()
+            message = (
+                f"Validation errors for {model.__name__}\n"
+                "The errors cannot be described: they involve a value that cannot be displayed."
+            )
+        raise DecodeValidationError(message)
     except RecursionError:
         # A YAML document can contain itself through an alias ("steps: &s [*s]"): walking it never ends.
         raise DecodeValidationError(
@@ -183,14 +203,15 @@ def decode_job_template(*, template: dict[str, Any]) -> JobTemplate:
         raise DecodeValidationError(
             "Template is missing Open Job Description schema version key: specificationVersion"
         )
-    except ValueError:
+    except (ValueError, RecursionError):
         # Value of the schema version is not one we know.
+        # (RecursionError: the enum describes the value that it does not know; see _display())
         values_allowed = ", ".join(
             str(s.value) for s in TemplateSpecificationVersion.job_template_versions()
         )
         raise DecodeValidationError(
             (
-                f"Unknown template version: {document_version}. "
+                f"Unknown template version: {_display(document_version)}. "
                 f"Values allowed for 'specificationVersion' in Job Templates are: {values_allowed}"
             )
         )
@@ -245,13 +266,15 @@ def decode_environment_template(*, template: dict[str, Any]) -> EnvironmentTempl
         raise DecodeValidationError(
             "Template is missing Open Job Description schema version key: specificationVersion"
         )
-    except ValueError:
+    except (ValueError, RecursionError):
         # Value of the schema version is not one we know.
+        # (RecursionError: the enum describes the value that it does not know; see _display())
         values_allowed = ", ".join(
             str(s.value) for s in TemplateSpecificationVersion.environment_template_versions()
         )
         raise DecodeValidationError(
-            f"Unknown template version: {document_version}. Allowed values are: {values_allowed}"
+            f"Unknown template version: {_display(document_version)}. "
+            f"Allowed values are: {values_allowed}"
         )
 
     if not TemplateSpecificationVersion.is_environment_template(schema_version):
